@@ -58,4 +58,37 @@ theorem readRange_mid : ∀ (mid pre post : List Nat),
     simp only [List.length_append, List.length_cons, List.length_nil, Nat.zero_add] at ih
     rw [ih]; rfl
 
+/-- the exact version-0 reads (`data[j], data[j + 1]` for `j = lo, lo + 2, …`) are the contiguous block of `2n` bytes -/
+theorem readPairsV0_eq (data : List Nat) : ∀ (n lo : Nat), readPairsV0 data lo n = readRange data lo (2 * n)
+  | 0, _ => rfl
+  | n + 1, lo => by
+    have ih := readPairsV0_eq data n (lo + 2)
+    have h2 : 2 * (n + 1) = (2 * n + 1) + 1 := by omega
+    rw [h2]
+    simp only [readPairsV0, readRange]
+    cases ha : data[lo]? with
+    | none => rfl
+    | some a =>
+      cases hb : data[lo + 1]? with
+      | none => rfl
+      | some b =>
+        simp only [ih]
+        cases readRange data (lo + 2) (2 * n) <;> rfl
+
+/-- for the block size the decoder computes (`orderCountOf`: even for version 0) the exact reads of either version are the
+    contiguous range `order_shift … cis_trans_shift − 1` -/
+theorem readOrderBytes_eq (data : List Nat) (v bc os : Nat) :
+    readOrderBytes data v os (orderCountOf v bc) = readRange data os (orderCountOf v bc) := by
+  unfold readOrderBytes
+  split
+  · rfl
+  · rename_i hv
+    have : ∃ k, orderCountOf v bc = 2 * k := by
+      unfold orderCountOf
+      rw [if_neg hv]
+      exact ⟨_, Nat.mul_comm _ _⟩
+    obtain ⟨k, hk⟩ := this
+    rw [hk, readPairsV0_eq]
+    congr 1; omega
+
 end ChythonModel.Proofs.C10
